@@ -4,6 +4,7 @@
     upstreams) and Proofs/RuleEngine.v (layer B: the engine model). *)
 From Coq Require Import List NArith Bool.
 From AGH Require Import Base.Run Base.NetAddr Base.RuleEngine Model.Pipeline Proofs.Pipeline Proofs.RuleEngine.
+From AGH Require Import Model.PipelineNames Gen.PipelineTables Proofs.PipelineTables.
 Import ListNotations.
 Local Open Scope N_scope.
 
@@ -128,6 +129,19 @@ Theorem C01_engine_verdict_spec :
   list_blocked (match_request allow) (match_request block) st host qt.
 Proof. exact list_blocked_from_rules. Qed.
 Print Assumptions C01_engine_verdict_spec.
+
+(** The tie of the two order tables to the source: the host-checker list of
+    filtering.New and the stage list of handleDNSRequest, as extracted from
+    the current source by tools/ordertables, are exactly the literals
+    [checker_order] / [stage_order] of the model (with the unmodelled entries
+    at their known places), and the extraction left nothing unresolved.  A
+    reordering in the source changes Gen/PipelineTables.v and breaks this. *)
+Theorem C01_tables_match_source :
+  Gen.PipelineTables.unresolved = [] /\
+  Gen.PipelineTables.host_checkers = expected_checkers /\
+  Gen.PipelineTables.stages = expected_stages.
+Proof. exact tables_match_source. Qed.
+Print Assumptions C01_tables_match_source.
 
 (** Non-vacuity: one configuration per blocking mode that meets the premise
     of C01_blocked_is_local, with the modelled engine over "||a.test^". *)
